@@ -1184,7 +1184,7 @@ func gen(r *hx.Rand, tier string, i int) string {
 	if c < 22 {
 		return genBytes(r)
 	}
-	mode := []int{0, 0, 1, 1, 1, 2, 3, 3, 3, 4, 4, 5}[r.Intn(12)]
+	mode := []int{0, 0, 0, 0, 1, 1, 1, 1, 1, 1, 2, 3, 3, 3, 3, 3, 3, 4, 4, 4, 4, 5, 5, 0}[r.Intn(24)] // first-position rings (2) are rare: a tree that misses them unrolls each for seconds
 	raw := genScript(r, mode)
 	q := []string{"S", "S", "S", "D", "D", "N"}[r.Intn(6)]
 	if q == "N" {
